@@ -11,7 +11,7 @@ for pf in $pats; do pf=$(cd /verif && realpath $pf)
   (cd /repo && git ls-files -z | xargs -0 cp --parents -t $w/repo)
   cp /verif/known_findings.json $w/verif/
   if ! (cd $w/repo && patch -p1 -s < $pf); then echo "$pf: PATCH-FAILED"; rm -rf $w; continue; fi
-  out=$(CBGP_REPO=$w/repo CBGP_VERIF=$w/verif /verif/bin/cbgpcheck check all 2>&1)
+  out=$(CBGP_REPO=$w/repo CBGP_VERIF=$w/verif ${BIN:-/verif/bin/cbgpcheck} check all 2>&1)
   fired=$(echo "$out" | grep -o 'VIOLATION property=C[0-9]*' | sed 's/VIOLATION property=//' | tr '\n' ' ')
   if [ -z "$fired" ]; then echo "$pf: silent"; else echo "$pf: ALARM [$fired]"; echo "$out" | grep -E "^  (violated|undecided)" | cut -c1-${W:-260}; fi
   rm -rf $w
